@@ -3,7 +3,7 @@ from .. import app, docprops, drive, engine, fixlib
 from ..oracles import cmark, fingerprint, htmlnorm
 from ..runner import Run
 
-PLAN = {"B2/53": 800, "B3/89": 400, "B4/83": 200, "N1/11": 1000, "W1/2": 800, "S2": 600, "S3": 120, "I4/97": 400, "I6": 200, "H4/3": 200, "P2": 500, "R2/3": 400, "R3": 500, "K7": 600, "T4/5": 200}
+PLAN = {"B2/53": 800, "B3/89": 400, "B4/83": 200, "N1/11": 1000, "W1/2": 800, "S2": 600, "S3": 120, "I4/97": 400, "I6": 200, "H4/3": 200, "P2": 500, "R2/3": 400, "R3": 500, "K7": 600, "T4/5": 200, "Z1": 800}
 EVALUATOR = "vp.props.c08:ev"
 RULE = (
     "documents = sub-lattices of the bounded universes on which C03's oracle holds (PyMarkdown's and the independent parser's HTML agree) and that scan cleanly; configurations: default rule set, "
